@@ -120,6 +120,10 @@ func generate(o *Options) *runResult {
 	for _, sw := range specs.Sweeps {
 		if hasProp(sw.Props, o.Prop) && (o.Only == "" || strings.Contains("sweep "+sw.Kind, o.Only)) {
 			sweeps = append(sweeps, sw)
+			if sw.Kind == "embeds" {
+				pkgSet[sw.PkgPath] = true
+				continue
+			}
 			for _, pk := range sw.Pkgs {
 				pkgSet[pk] = true
 			}
